@@ -636,6 +636,11 @@ class Scheduler:
                     # State is None if this is not the main thread
                     return JobState.ERROR
 
+                if state == JobState.WAITING and job.unsatisfied == 0:
+                    # Every dependency became available again while the start was aborted
+                    state = JobState.READY
+                    job._readyEvent.set()
+
                 job.state = state
 
         for listener in self.listeners:
